@@ -262,6 +262,39 @@ def _by_path(ctx, prog):
                             f"iterates {fmt(loop.data['iter'])[:80]}, whose "
                             f"elements are not modelled")
             ok = None
+        if not shape and (not is_call_to(loop.data["iter"],
+                                         "builtins.enumerate") or any(
+                is_call_to(x, "numpy.searchsorted", ".searchsorted",
+                           "numpy.cumsum")
+                for x in upd.walk())):
+            # the greedy search is re-implemented (while loop, binary search
+            # on running sums ...): not modelled — except for one thing that
+            # is decidable on sight: the hit is the *first* pose whose path
+            # reaches delta (>=), which in a sorted search of the running
+            # sums is side='left'; side='right' finds the first pose beyond
+            # delta and skips exact hits
+            right = [x for x in upd.walk()
+                     if is_call_to(x, "numpy.searchsorted", ".searchsorted")
+                     and tm.is_const(dict(x.args[2]).get(
+                         "side", x.args[1][2] if len(x.args[1]) > 2
+                         else const("left")), "right")]
+            appended = [x for x in upd.walk() if x.op == "mut" and
+                        x.args[1] == "append" and x.args[2] and any(
+                            y is r_ for r_ in right
+                            for y in x.args[2][0].walk())]
+            if appended:
+                ctx.ob("C10.1", f, False,
+                       f"meters/consecutive: the appended id is located "
+                       f"with np.searchsorted(..., side='right') on the "
+                       f"accumulated distances: a pose whose path is "
+                       f"*exactly* delta is skipped (the property asks for "
+                       f"the first pose that reaches delta, >=)",
+                       key="C10.1:path:ids-increasing")
+            else:
+                ctx.undecidable("C10.1", f, "meters/consecutive: the id "
+                                "list is not built by one pass over "
+                                "enumerate(poses)")
+            ok = None
         if ok is not None:
           ctx.ob("C10.1", f, ok,
                "meters/consecutive: ids are appended in increasing loop "
@@ -1034,6 +1067,17 @@ def _dispatch(ctx, prog):
                             is_call_to(c[0], "builtins.len") and
                             c[0].args[1][0] is res
                             for c in comparisons(e.live))]
+        if not ret_ok and member != "frames" and r.ret.op == "ite" and \
+                {a for a in (r.ret.args[1], r.ret.args[2])} == \
+                {T("list"), res}:
+            # a fail-fast shortcut in front of the search (`[]` where the
+            # trajectory is shorter than delta ...): whether the search would
+            # have found nothing either (tolerance of the all-pairs mode,
+            # rounding of the path length) is arithmetic — not decided
+            ctx.undecidable("C10.6", f, f"delta unit {member}: the pair "
+                            f"search is skipped under "
+                            f"{fmt(r.ret.args[0])[:100]}")
+            continue
         ok = bool(empt) and bool(rets) and empt[0].idx < rets[-1].idx and \
             ret_ok
         ctx.ob("C10.6", f, ok,
